@@ -21,7 +21,10 @@ Proof. unfold n_emitted. cbn [filter]. destruct (emits x); reflexivity. Qed.
 Lemma n_emitted_app a b : n_emitted (a ++ b) = n_emitted a + n_emitted b.
 Proof. unfold n_emitted. rewrite filter_app, app_length. reflexivity. Qed.
 Lemma n_emitted_rev a : n_emitted (rev a) = n_emitted a.
-Proof. induction a as [|x a IH]; [reflexivity|]. cbn [rev]. rewrite n_emitted_app, n_emitted_cons, IH. cbn. lia. Qed.
+Proof.
+  induction a as [|x a IH]; [reflexivity|]. cbn [rev]. rewrite n_emitted_app, IH, !n_emitted_cons.
+  change (n_emitted []) with 0. lia.
+Qed.
 
 (* ---------- dict_set / dict_get ---------- *)
 Lemma dict_get_set_same {V} k (v : V) d : dict_get k (dict_set k v d) = Some v.
@@ -174,7 +177,7 @@ Section OneEquation.
     intros I Tv Ev Hmono. constructor.
     - pose proof (n_emitted_dict_set y v d) as C. rewrite Ev in C. pose proof (inv_y _ _ I) as Y. pose proof (inv_count _ _ I) as N.
       destruct (dict_get y d) as [o|].
-      + rewrite Y in C. destruct e, e'; cbn in *; try lia. specialize (Hmono eq_refl). discriminate.
+      + rewrite Y in C. destruct e, e'; cbn in *; try lia; try (specialize (Hmono eq_refl); discriminate).
       + subst e. cbn in *. lia.
     - intros x Hx. destruct (dict_values_set_in _ _ _ _ Hx) as [->|Hx']; [exact Tv|apply (inv_tidy _ _ I), Hx'].
     - intros k' v' Hg Hk'. rewrite (dict_get_set_other _ _ _ _ Hk') in Hg. eapply inv_other; eauto.
@@ -218,16 +221,16 @@ Section OneEquation.
         assert (Es : emits sym = true) by reflexivity.
         assert (Tys : stype sym = TEndogenous) by reflexivity.
         destruct (dict_combine (tname t) sym d) as [dd|] eqn:Ed; [|discriminate]. intros H.
-        replace (e || (true || existsb is_endo rest)) with (true || existsb is_endo rest) by (destruct e; reflexivity).
+        replace (e || true) with (true || existsb is_endo rest) by (destruct e; reflexivity).
         eapply IH; [exact Gr| |exact H].
         unfold dict_combine in Ed. rewrite Gt in Ed.
         destruct (dict_get y d) as [old|] eqn:Eg.
         * destruct (combine old sym) as [c|] eqn:Ec; [|discriminate]. inversion Ed; subst dd.
           destruct (combine_emitting_r _ _ _ Ec Tys Es) as [Ece Tc].
-          apply (inv_set_y e true d c I); auto. unfold tidy. rewrite Ece. exact Tc.
+          apply (inv_set_y e true d c I); [unfold tidy; rewrite Ece; exact Tc|exact Ece|auto].
         * destruct (combine sym sym) as [c|] eqn:Ec; [|discriminate]. inversion Ed; subst dd.
           destruct (combine_self _ _ Ec) as (Ece & _ & Tc).
-          apply (inv_set_y e true d c I); auto. unfold tidy. rewrite Ece, Es, Tc. reflexivity. congruence.
+          apply (inv_set_y e true d c I); [unfold tidy; rewrite Ece, Es, Tc; reflexivity|congruence|auto].
       + (* FUNCTION: the name is not y *)
         apply negb_true_iff in Gt. apply String.eqb_neq in Gt.
         destruct (mem_string (tname t) fs); intros H.
@@ -240,7 +243,7 @@ Section OneEquation.
 End OneEquation.
 
 Lemma inv_nil y : inv y false [].
-Proof. constructor; cbn; auto; try (intros; contradiction); try discriminate. intros k v H; discriminate. Qed.
+Proof. constructor; cbn; auto; try (intros; contradiction); try discriminate; try (intros k v H; discriminate). Qed.
 
 Theorem equation_symbols_one eqn code y terms syms :
   lhs_guard y terms = true -> has_type TEndogenous terms = true ->
@@ -267,7 +270,7 @@ Proof.
   destruct (negb (length stmts =? 1)); [discriminate|].
   fold (backticked st). destruct (backticked st) eqn:Ebt.
   { intros H; inversion H; subst. split; [reflexivity|]. intros v [<-|[]] Hn. cbn in Hn. congruence. }
-  destruct G as [G|(terms & y & Ht & G)]; [discriminate|].
+  destruct G as [G|(terms & y & Ht & G)]; [congruence|].
   destruct (negb (count_char "{" st =? count_char "}" st)); [discriminate|].
   rewrite Ht. pose proof (parse_equation_terms_wf _ _ Ht) as Hwf.
   destruct (wf_terms_strs terms Hwf) as (a & b & -> & ->).
@@ -405,5 +408,5 @@ Proof.
       split; [constructor; assumption|]. cbn [concat]. intros x Hx. apply in_app_or in Hx as [Hx|Hx]; [apply T, Hx|apply I2, Hx]. }
   destruct ONE as [O1 O2].
   rewrite (merge_symbols_count by_eq out ND O2 Em), (n_emitted_concat_ones by_eq O1).
-  symmetry. eapply Forall2_length; eauto.
+  symmetry. clear - F. induction F as [|st L sts Ls _ _ IH]; [reflexivity|]. cbn [length]. rewrite IH. reflexivity.
 Qed.
